@@ -1,7 +1,7 @@
 (* C12 - AMEn solve: the residual-driven rank search and the rank clamp.  Convergence of the sweeps is NOT a theorem (partial).
    Only theorem statements closed by `exact`, each followed by Print Assumptions. *)
 From Coq Require Import List Arith.
-From TT Require Import Skel SkelP.
+From TT Require Import RingSig SumN Mat Core Skel SkelP FrameP.
 (* for r in range(n-1,0,-1): if res(r) > bound: break;  r += 1  -  with ok r := (res(r) <= bound) as oracle:
    the returned rank lies in 1..n, every candidate rank from it up to n-1 has a residual within the bound, and the rank just
    below it does not (unless the search reached the bottom) *)
@@ -11,5 +11,29 @@ Theorem C12_rank_search_spec ok n : 1 <= n ->
 Proof. exact (rank_search_spec ok n). Qed.
 Theorem C12_clamp_rank_le r n rmax : clamp_rank r n rmax <= r /\ clamp_rank r n rmax <= n /\ clamp_rank r n rmax <= rmax.
 Proof. exact (clamp_rank_le r n rmax). Qed.
+(* ---- the identity every local problem of ALS / AMEn / DMRG is built on (also used by C11, C13): around any core k,
+   x[i] = sum_{p,q} L_k(i_<k)[p] * G_k[p, i_k, q] * R_k(i_>k)[q]; replacing the core keeps both interfaces, so the tensor is a linear
+   function of each single core - for every order, all mode sizes and ranks, any commutative ring ---- *)
+Section Frame.
+Context {R : Type} {RO : RingOps R} {RL : RingLaws R}.
+Theorem C12_entry_frame k (x : tt R) idx c : wf x -> nth_error x k = Some c -> length idx = length x ->
+  entry x idx = sum_n (r0 c) (fun p => sum_n (r1 c) (fun q => rmul (rmul (phiL x idx k p) (e3 c p (nth k idx 0%nat) q)) (phiR x idx k q))).
+Proof. exact (entry_frame k x idx c). Qed.
+Theorem C12_entry_setc k (x : tt R) idx c c' : wf x -> nth_error x k = Some c' -> r0 c = r0 c' -> r1 c = r1 c' -> length idx = length x ->
+  entry (setc k c x) idx = sum_n (r0 c) (fun p => sum_n (r1 c) (fun q => rmul (rmul (phiL x idx k p) (e3 c p (nth k idx 0%nat) q)) (phiR x idx k q))).
+Proof. exact (entry_setc k x idx c c'). Qed.
+Theorem C12_entry_setc_add k (x : tt R) idx c1 c2 c' : wf x -> nth_error x k = Some c' ->
+  r0 c1 = r0 c' -> r1 c1 = r1 c' -> r0 c2 = r0 c' -> r1 c2 = r1 c' -> length idx = length x ->
+  entry (setc k (cadd c1 c2) x) idx = radd (entry (setc k c1 x) idx) (entry (setc k c2 x) idx).
+Proof. exact (entry_setc_add k x idx c1 c2 c'). Qed.
+Theorem C12_entry_setc_scale k (x : tt R) idx s c c' : wf x -> nth_error x k = Some c' -> r0 c = r0 c' -> r1 c = r1 c' -> length idx = length x ->
+  entry (setc k (cscale s c) x) idx = rmul s (entry (setc k c x) idx).
+Proof. exact (entry_setc_scale k x idx s c c'). Qed.
+End Frame.
+
 Print Assumptions C12_rank_search_spec.
 Print Assumptions C12_clamp_rank_le.
+Print Assumptions C12_entry_frame.
+Print Assumptions C12_entry_setc.
+Print Assumptions C12_entry_setc_add.
+Print Assumptions C12_entry_setc_scale.
